@@ -111,6 +111,9 @@ def _ev(n, look, fn):
         if name == 'past':
             # past(x, tau): handled by the model through the special hook
             return fn['past'](n.args[0].id, _ev(n.args[1], look, fn))
+        if name not in fn and '__varcall__' in fn:
+            # x(t - tau): value of variable x at the (absolute) time given by the argument
+            return fn['__varcall__'](name, _ev(n.args[0], look, fn))
         args = [_ev(a, look, fn) for a in n.args]
         return fn[name](*args)
     if isinstance(n, ast.Subscript):
